@@ -3,7 +3,8 @@ from __future__ import annotations
 
 import importlib
 
-OP_MODULES = ["contracts.c05", "contracts.c06", "contracts.c11", "contracts.c13", "contracts.c40", "contracts.c17", "contracts.c17q"]
+OP_MODULES = ["contracts.c05", "contracts.c06", "contracts.c11", "contracts.c13", "contracts.c40", "contracts.c17", "contracts.c17q",
+              "contracts.c19"]
 MONITOR_MODULES = ["contracts.c26"]
 
 
@@ -71,6 +72,7 @@ def lockset_units(prop):
 
 #: which unit families each property draws on
 FAMILIES = {
+    "C19": ["op", "grouping"],
     "C36": ["timeconv"],
     "C38": ["marble"],
     "C41": ["bridge"],
@@ -132,6 +134,8 @@ def units_for(prop, tier):
         us.append({"runner": "replay", "prop": prop, "id": "reactivex/subject/replaysubject.py::ReplaySubject"})
     if "timedextra" in fams:
         us.append({"runner": "timedextra", "prop": prop, "id": f"timed-operators-not-under-contract/{prop}"})
+    if "grouping" in fams:
+        us.append({"runner": "grouping", "prop": prop, "id": f"grouping-wiring/{prop}"})
     if "marble" in fams:
         us.append({"runner": "marble", "prop": prop, "id": "reactivex/observable/marbles.py::parse+from_marbles+hot"})
     if "bridge" in fams:
